@@ -502,11 +502,32 @@ var (
 	intPool = []int64{1, 2, 3, 4, 5, 10, 11, 21}
 )
 
-func drawPart(rt *rapid.T, t reflect.Type, label string) val {
+// drawPart draws one key part. composite: the part belongs to a key of several
+// columns; there an integer part may be 0 (gorm accepts a composite key as long
+// as one part is non-zero), unless the listed class idkey-zero-part is open: an
+// int 0 is rendered "nil" and a *int 0 "0" by utils.ToStringKey, so relations
+// whose two sides differ in pointer-ness fail on it.
+func drawPart(rt *rapid.T, t reflect.Type, label string, composite bool) val {
 	if isStrType(t) {
 		return val{Str: true, S: rapid.SampledFrom(strPool).Draw(rt, label)}
 	}
-	return val{I: rapid.SampledFrom(intPool).Draw(rt, label)}
+	v := val{I: rapid.SampledFrom(intPool).Draw(rt, label)}
+	if composite && rapid.IntRange(0, 8).Draw(rt, label+".zero") == 0 {
+		if harness.OpenClass("C11", "idkey-zero-part") {
+			evid.Excluded("idkey-zero-part")
+		} else {
+			v.I = 0
+		}
+	}
+	return v
+}
+
+// extraRows widens every table in the thorough tier.
+func extraRows() int {
+	if harness.Thorough() {
+		return 3
+	}
+	return 0
 }
 
 func blank(t reflect.Type) val {
@@ -514,6 +535,24 @@ func blank(t reflect.Type) val {
 		return val{Null: true}
 	}
 	return val{Str: isStrType(t)}
+}
+
+// resplit returns the other ways of cutting the "_"-joined text of an all-string
+// tuple into the same number of non-empty parts: exactly the tuples that the
+// identity text cannot tell from t (("a_b","c") -> ("a","b_c")). Only pairs are
+// cut (every composite key of the family has two parts).
+func resplit(t tuple) []tuple {
+	if len(t) != 2 || !t[0].Str || !t[1].Str || t[0].Null || t[1].Null {
+		return nil
+	}
+	txt := t[0].S + "_" + t[1].S
+	var out []tuple
+	for i := 1; i < len(txt)-1; i++ {
+		if txt[i] == '_' && i != len(t[0].S) {
+			out = append(out, tuple{{Str: true, S: txt[:i]}, {Str: true, S: txt[i+1:]}})
+		}
+	}
+	return out
 }
 
 // collisionClass names the known-finding class of two distinct typed tuples
@@ -581,13 +620,23 @@ func genGraph(rt *rapid.T, f *family, l load) *graph {
 		if m.isJoin {
 			continue
 		}
-		n := rapid.IntRange(m.minRows, m.maxRows).Draw(rt, m.name+".n")
+		n := rapid.IntRange(m.minRows, m.maxRows+extraRows()).Draw(rt, m.name+".n")
 		seen := map[string]bool{}
 		for i := 0; i < n; i++ {
 			r := reflect.New(m.typ)
 			pk := make(tuple, len(m.pk))
 			for j, fn := range m.pk {
-				pk[j] = drawPart(rt, field(r, fn).Type(), fmt.Sprintf("%s[%d].%s", m.name, i, fn))
+				pk[j] = drawPart(rt, field(r, fn).Type(), fmt.Sprintf("%s[%d].%s", m.name, i, fn), len(m.pk) > 1)
+			}
+			// hostile by design: sometimes the key is another cut of an existing key's text
+			if len(m.pk) == 2 && len(g.rows[m.name]) > 0 && rapid.IntRange(0, 5).Draw(rt, "resplit") == 0 {
+				var alts []tuple
+				for _, x := range g.rows[m.name] {
+					alts = append(alts, resplit(tupleOf(x, m.pk))...)
+				}
+				if len(alts) > 0 {
+					pk = alts[rapid.IntRange(0, len(alts)-1).Draw(rt, "resplit.pick")]
+				}
 			}
 			if seen[pk.String()] {
 				continue
@@ -637,7 +686,16 @@ func genGraph(rt *rapid.T, f *family, l load) *graph {
 			copy(t, tupleOf(src, k.tfields))
 		case "dangling":
 			for i := range t {
-				t[i] = drawPart(rt, types[i], fmt.Sprintf("%s.%d", label, i))
+				t[i] = drawPart(rt, types[i], fmt.Sprintf("%s.%d", label, i), len(t) > 1)
+			}
+			if len(t) == 2 && len(targets) > 0 && rapid.IntRange(0, 2).Draw(rt, label+".resplit") == 0 {
+				var alts []tuple
+				for _, x := range targets {
+					alts = append(alts, resplit(tupleOf(x, k.tfields))...)
+				}
+				if len(alts) > 0 {
+					copy(t, alts[rapid.IntRange(0, len(alts)-1).Draw(rt, label+".resplit.pick")])
+				}
 			}
 		case "blank":
 			for i := range t {
@@ -648,7 +706,7 @@ func genGraph(rt *rapid.T, f *family, l load) *graph {
 				copy(t, tupleOf(targets[rapid.IntRange(0, len(targets)-1).Draw(rt, label+".target")], k.tfields))
 			} else {
 				for i := range t {
-					t[i] = drawPart(rt, types[i], fmt.Sprintf("%s.%d", label, i))
+					t[i] = drawPart(rt, types[i], fmt.Sprintf("%s.%d", label, i), len(t) > 1)
 				}
 			}
 			var nidx []int
@@ -687,7 +745,7 @@ func genGraph(rt *rapid.T, f *family, l load) *graph {
 				t := drawFK(r, fk{[]string{p.idField}, owner.name, owner.pk}, label, true)
 				setVal(field(r, p.idField), t[0])
 				typ := owner.table
-				if rapid.IntRange(0, 9).Draw(rt, label+".foreign-type") == 0 {
+				if rapid.IntRange(0, 4).Draw(rt, label+".foreign-type") == 0 {
 					typ = "zz_other"
 				}
 				field(r, p.typeField).SetString(typ)
@@ -699,7 +757,7 @@ func genGraph(rt *rapid.T, f *family, l load) *graph {
 		if !m.isJoin {
 			continue
 		}
-		n := rapid.IntRange(0, m.maxRows).Draw(rt, m.name+".n")
+		n := rapid.IntRange(0, m.maxRows+extraRows()).Draw(rt, m.name+".n")
 		seen := map[string]bool{}
 		for i := 0; i < n; i++ {
 			r := reflect.New(m.typ)
@@ -873,8 +931,10 @@ func attached(f *family, r *rel, owner reflect.Value) []row {
 		}
 		return []row{fv}
 	case reflect.Struct:
-		// a value-typed to-one field is "empty" when it is the zero struct
-		if fv.IsZero() {
+		// a value-typed to-one field is "empty" when its primary key is blank
+		// (stored keys never are); checkRecord verifies that nothing else of
+		// it is filled either
+		if tupleOf(fv.Addr(), f.m(r.target).pk).allBlank() {
 			return nil
 		}
 		return []row{fv.Addr()}
@@ -933,6 +993,11 @@ func (c *checker) checkRecord(m *model, rec reflect.Value, n *node, joined map[s
 		tm := f.m(r.target)
 		got := attached(f, r, rec)
 		where := path + "." + r.name
+		if fv := reflect.Indirect(rec).FieldByName(r.name); fv.Kind() == reflect.Struct && len(got) == 0 {
+			if g, z := rowString(tm, fv.Addr()), rowString(tm, reflect.New(tm.typ)); g != z {
+				return fmt.Errorf("%s of %s: no key but partly filled: %s", where, rowString(m, mirror), g)
+			}
+		}
 		var k *node
 		if n != nil {
 			k = n.kids[r.name]
@@ -1086,7 +1151,9 @@ func newDest(m *model, shape string) reflect.Value {
 	return reflect.New(reflect.SliceOf(reflect.PtrTo(m.typ)))
 }
 
-func colName(db *gorm.DB, fieldName string) string { return db.NamingStrategy.ColumnName("", fieldName) }
+func colName(db *gorm.DB, fieldName string) string {
+	return db.NamingStrategy.ColumnName("", fieldName)
+}
 
 func curCol(name string) clause.Column { return clause.Column{Table: clause.CurrentTable, Name: name} }
 
@@ -1160,6 +1227,9 @@ func referenceRows(g *graph, l load) []string {
 		}
 		if l.Shape != "struct" && tagOf(p) < l.MinTag {
 			continue
+		}
+		if !l.Unscoped && isDeleted(root, p) {
+			continue // the root query's own soft-delete scope
 		}
 		combos := []string{tupleOf(p, root.pk).String()}
 		for _, j := range l.Joins {
@@ -1580,7 +1650,7 @@ func genLoad(rt *rapid.T, f *family) load {
 	l := load{}
 	l.Root = rapid.SampledFrom([]string{f.name + "User", f.name + "User", f.name + "User", f.name + "User", f.name + "Company", f.name + "Pet"}).Draw(rt, "root")
 	root := f.m(l.Root)
-	l.Mode = rapid.SampledFrom([]string{"query", "query", "query", "query", "assoc-find"}).Draw(rt, "mode")
+	l.Mode = rapid.SampledFrom([]string{"query", "query", "query", "assoc-find"}).Draw(rt, "mode")
 	l.Shape = rapid.SampledFrom([]string{"slice", "slice", "ptrslice", "ptrslice", "struct"}).Draw(rt, "shape")
 	if l.Shape != "struct" {
 		l.Dup = rapid.IntRange(0, 3).Draw(rt, "dup") == 0
@@ -1662,6 +1732,26 @@ func genLoad(rt *rapid.T, f *family) load {
 			underJoined = true
 		}
 	}
+	// listed finding assoc-inline-conds-concat: an inline condition on
+	// clause.Associations and another inline condition on a named relation are
+	// concatenated by gorm into one argument list (append(preloads[name],
+	// associationsConds...)): the second condition's text becomes a surplus
+	// argument of the first and is silently dropped. Scope functions compose, so
+	// only the inline+inline pair is excluded while the class is open.
+	assocInline := false
+	for _, p := range l.Preloads {
+		if p.Path == clause.Associations && p.Cond != nil && strings.HasPrefix(p.Cond.Form, "inline-") {
+			assocInline = true
+		}
+	}
+	for i := range l.Preloads {
+		p := &l.Preloads[i]
+		if assocInline && p.Path != clause.Associations && !strings.Contains(p.Path, ".") && p.Cond != nil && strings.HasPrefix(p.Cond.Form, "inline-") &&
+			harness.OpenClass("C11", "assoc-inline-conds-concat") {
+			p.Cond = nil
+			evid.Excluded("assoc-inline-conds-concat")
+		}
+	}
 	for i := range l.Preloads {
 		if underJoined && l.Preloads[i].Path == clause.Associations && l.Preloads[i].Cond != nil {
 			l.Preloads[i].Cond = nil
@@ -1680,6 +1770,33 @@ func isJoined(l load, name string) bool {
 	return false
 }
 
+// knownClass recognises the listed finding classes that are properties of the
+// whole case (the idkey classes are excluded inside genGraph, tuple by tuple).
+//
+// assocfind-composite-nokey: Association().Find over a relation with a composite
+// key when none of the given parents has a key tuple (all NULL / blank):
+// ToQueryConditions renders `(c1,c2) IN (NULL)`, which is an SQL error.
+func knownClass(g *graph, l load) string {
+	if l.Mode == "assoc-find" {
+		root := g.fam.m(l.Root)
+		r := root.rel(l.Assoc)
+		if len(r.own) >= 2 {
+			any := false
+			for i, p := range g.rows[root.name] {
+				if (l.Shape == "struct" && i == l.Pick) || (l.Shape != "struct" && tagOf(p) >= l.MinTag) {
+					if !tupleOf(p, r.own).allBlank() {
+						any = true
+					}
+				}
+			}
+			if !any {
+				return "assocfind-composite-nokey"
+			}
+		}
+	}
+	return ""
+}
+
 // TestC11 is the generated check.
 func TestC11(t *testing.T) {
 	evid.Rule(ruleText)
@@ -1693,6 +1810,10 @@ func TestC11(t *testing.T) {
 		} else if l.Shape == "struct" {
 			l.Pick = rapid.IntRange(0, n-1).Draw(rt, "pick")
 		}
+		if class := knownClass(g, l); class != "" && harness.OpenClass("C11", class) {
+			evid.Excluded(class)
+			return
+		}
 		evid.Journal(g.String() + " load " + l.String())
 		o := runCase(g, l)
 		evid.Case(o.desc, o.nt, nil, o.classes...)
@@ -1700,4 +1821,92 @@ func TestC11(t *testing.T) {
 			rt.Fatalf("C11 violated: %s\n  case: %s", o.msg, o.desc)
 		}
 	})
+}
+
+// ---------------------------------------------------------------- witnesses of listed findings
+
+func famByName(n string) *family {
+	for _, f := range families {
+		if f.name == n {
+			return f
+		}
+	}
+	panic("harness: no group " + n)
+}
+
+// graphOf builds a data graph from literal rows (pointers to model structs).
+func graphOf(f *family, rows ...interface{}) *graph {
+	g := &graph{fam: f, rows: map[string][]row{}}
+	for _, r := range rows {
+		rv := reflect.ValueOf(r)
+		g.rows[rv.Elem().Type().Name()] = append(g.rows[rv.Elem().Type().Name()], rv)
+	}
+	return g
+}
+
+func sp(s string) *string { return &s }
+func ip(i int) *int       { return &i }
+
+func witness(t *testing.T, g *graph, loads ...load) {
+	t.Helper()
+	for _, l := range loads {
+		if o := runCase(g, l); o.msg != "" {
+			t.Errorf("C11 violated: %s\n  case: %s", o.msg, o.desc)
+		}
+	}
+}
+
+// parents ("a_b","c") and ("a","b_c"), one pet each: both keys are "a_b_c" to
+// the identity map, so both pets land on both parents / the second parent's pet
+// is never queried.
+func TestC11WitnessIDKeyCollision(t *testing.T) {
+	g := graphOf(famByName("D"),
+		&DUser{K1: "a_b", K2: "c"}, &DUser{K1: "a", K2: "b_c"},
+		&DPet{K1: "p1", K2: "x", UserK1: "a_b", UserK2: "c"}, &DPet{K1: "p2", K2: "x", UserK1: "a", UserK2: "b_c"})
+	witness(t, g,
+		load{Mode: "query", Root: "DUser", Shape: "slice", Preloads: []preloadSpec{{Path: "Pets"}}},
+		load{Mode: "assoc-find", Root: "DUser", Shape: "slice", Assoc: "Pets"})
+}
+
+// users with company keys (NULL,"x") and ("nil","x"): the NULL part is rendered
+// as the text "nil", so the two foreign keys share one identity-map entry.
+func TestC11WitnessIDKeyNilCollision(t *testing.T) {
+	for _, order := range [][2]int{{0, 1}, {1, 0}} {
+		us := []*DUser{{K1: "u1", K2: "a", CoK1: nil, CoK2: sp("x")}, {K1: "u2", K2: "a", CoK1: sp("nil"), CoK2: sp("x")}}
+		// SQLite returns rows in key order; name the users so that both orders occur
+		us[order[0]].K1, us[order[1]].K1 = "u1", "u2"
+		g := graphOf(famByName("D"), us[0], us[1], &DCompany{K1: "nil", K2: "x"})
+		witness(t, g, load{Mode: "query", Root: "DUser", Shape: "slice", Preloads: []preloadSpec{{Path: "Company"}}})
+	}
+}
+
+// Association("Boss").Find on a composite-key belongs-to whose parent has no
+// boss: `(org,code) IN (NULL)` is an SQL error instead of an empty result.
+func TestC11WitnessAssocFindCompositeNoKey(t *testing.T) {
+	g := graphOf(famByName("C"), &CUser{Org: 1, Code: "a"})
+	witness(t, g, load{Mode: "assoc-find", Root: "CUser", Shape: "slice", Assoc: "Boss"},
+		load{Mode: "assoc-find", Root: "CUser", Shape: "struct", Assoc: "Company"})
+}
+
+// Preload("Boss", "tag >= ?", 0) together with Preload(clause.Associations,
+// "tag >= ?", 1): both conditions are given for Boss, gorm applies only the first.
+func TestC11WitnessAssocInlineCondsConcat(t *testing.T) {
+	two := uint(2)
+	g := graphOf(famByName("A"), &AUser{ID: 1, Tag: 2, BossID: &two}, &AUser{ID: 2, Tag: 0})
+	witness(t, g, load{Mode: "query", Root: "AUser", Shape: "slice", Preloads: []preloadSpec{
+		{Path: "Boss", Cond: &cond{Form: "inline-gte", K: 0}},
+		{Path: clause.Associations, Cond: &cond{Form: "inline-gte", K: 1}},
+	}})
+}
+
+// a parent with composite key (0,"x") and a pet whose foreign key is (*int -> 0,
+// "x"): the parent's int 0 is rendered "nil", the child's *int 0 "0", the child
+// is not found in the identity map and the whole Preload fails with "failed to
+// assign association". (Profile, whose foreign key parts are plain ints, loads.)
+func TestC11WitnessIDKeyZeroPart(t *testing.T) {
+	g := graphOf(famByName("C"), &CUser{Org: 0, Code: "x"}, &CUser{Org: 1, Code: "x"},
+		&CPet{ID: 1, UserOrg: ip(0), UserCode: sp("x")}, &CPet{ID: 2, UserOrg: ip(1), UserCode: sp("x")},
+		&CProfile{ID: 1, UserOrg: 0, UserCode: "x"})
+	witness(t, g, load{Mode: "query", Root: "CUser", Shape: "slice", Preloads: []preloadSpec{{Path: "Profile"}}})
+	witness(t, g, load{Mode: "query", Root: "CUser", Shape: "slice", Preloads: []preloadSpec{{Path: "Pets"}}})
 }
